@@ -819,6 +819,10 @@ impl<'w> Exec<'w> {
                 let f = json!({"uri": uri, "name": "ws"});
                 if *b && !self.has_folder_b_files() {
                     sent = false;
+                } else if *add && present {
+                    // the same folder announced again: it is simply (still) present
+                    self.stats.probe("folder_added_twice");
+                    self.peer.notify("workspace/didChangeWorkspaceFolders", json!({"event": {"added": [f], "removed": []}}));
                 } else if *add && !present {
                     if *b {
                         self.client.folder_b_present = true;
